@@ -99,7 +99,7 @@ type Cluster struct {
 	Policies []PolicySpec `json:"policies"`
 	Ap       []ApSpec     `json:"ap"`
 	Dos      []DosSpec    `json:"dos"`
-	DosHops  []ApSpec     `json:"doshops"` // kind dospolicy | doslogconf: APDosPolicy / APDosLogConf objects
+	DosHops  []ApSpec     `json:"doshops"`  // kind dospolicy | doslogconf: APDosPolicy / APDosLogConf objects
 	UserSigs []ApSpec     `json:"usersigs"` // kind usersig: APUserSig objects (event level only)
 }
 
